@@ -60,7 +60,7 @@ def histories(max_rt: int):
     return out
 
 
-def round_trip(scfg, kind, report):
+def round_trip(scfg, kind, report, keep=None):
     from numba_scfg.core.datastructures.scfg import SCFG
     before = sdump(scfg)
     try:
@@ -89,7 +89,24 @@ def round_trip(scfg, kind, report):
     if d2 != d1:
         report("rewrite-differs", f"writing the re-read graph gives a different dictionary: {first_diff(d1, d2)}")
         return None
+    if keep is not None:
+        import copy
+        keep.append((scfg, before, d1, copy.deepcopy(d1), kind))
     return new
+
+
+def check_kept(keep, report):
+    """After the history went on with the RE-READ graph: the graph that was written and the dictionary it was written to are
+    separate objects now - whatever happened to the re-read graph must not have changed them (a written dictionary that
+    changes later cannot be read back to the graph it was written from)."""
+    for old_scfg, before, d1, d1_copy, kind in keep:
+        if d1 != d1_copy:
+            report("written-dictionary-changed-later", f"the dictionary written earlier changed while the re-read graph was being "
+                                                       f"transformed: {first_diff(d1_copy, d1)}")
+        now = sdump(old_scfg)
+        if now != before:
+            report("written-graph-changed-later", f"the graph that was written changed while its re-read copy was being transformed: "
+                                                  f"{first_diff(before, now)}")
 
 
 def check_graph(g, fam, acc: Acc, opts):
@@ -98,6 +115,7 @@ def check_graph(g, fam, acc: Acc, opts):
             scfg = make_scfg(g, payload)
             seen = set()
             ok = True
+            keep = []
             for gap in range(GAPS):
                 for (gp, kind) in hist:
                     if gp != gap:
@@ -109,7 +127,7 @@ def check_graph(g, fam, acc: Acc, opts):
                         seen.add(clause)
                         acc.viol(PROP, f"{PROP}/{clause}", detail, (g, payload, hist), site=site or f"gap{gap}",
                                  shape=f"gap{gap}", case=graph_case(g, fam, f"gap{gap}", payload=payload, history=[list(h) for h in hist]))
-                    new = round_trip(scfg, kind, report)
+                    new = round_trip(scfg, kind, report, keep)
                     acc.transitions += 1
                     if new is None:
                         ok = False
@@ -124,6 +142,14 @@ def check_graph(g, fam, acc: Acc, opts):
                     acc.counters["continuation_raised_after_reload(C18/C02)" if hist else "stage_raised(C02)"] += 1
                     ok = False
                     break
+            if keep:
+                def report_end(clause, detail, site=""):
+                    if clause in seen:
+                        return
+                    seen.add(clause)
+                    acc.viol(PROP, f"{PROP}/{clause}", detail, (g, payload, hist), site="end-of-history",
+                             case=graph_case(g, fam, "end", payload=payload, history=[list(h) for h in hist]))
+                check_kept(keep, report_end)
             acc.states += 1
             acc.outcomes.add((payload, len(hist), ok))
     if len(acc.samples) < 2 and len(g) >= 4:
